@@ -691,18 +691,21 @@ def _gating_impl(o_lit, o_imp, o_ann, o_pass, o_obj, o_ass, o_dbg, o_ret, o_fold
     return True
 
 
-def suite_kernel_b(which: int, n: int, b0: bool, b1: bool, b2: bool, b3: bool, b4: bool, b5: bool, b6: bool, b7: bool, b8: bool, b9: bool, b10: bool, b11: bool) -> bool:
+SUITE_RADICES = [4, 4, N_PARENT, N_STMT, N_STMT, N_STMT]      # which, n, parent kind, statement kinds (index bits: low = which)
+
+
+def suite_kernel_b(b0: bool, b1: bool, b2: bool, b3: bool, b4: bool, b5: bool, b6: bool, b7: bool, b8: bool, b9: bool, b10: bool, b11: bool, b12: bool, b13: bool, b14: bool, b15: bool, b16: bool, b17: bool, b18: bool) -> bool:
     """
-    pre: 0 <= which <= 3
-    pre: 0 <= n <= 3
     post: _
     """
-    # suite_kernel with the parent kind and statement kinds taken from 12 boolean structure parameters
-    return untraced(_suite_b_impl, which, n, bits_index(b0, b1, b2, b3, b4, b5, b6, b7, b8, b9, b10, b11))
+    # suite_kernel with every structure parameter taken from 19 boolean parameters (b0-b1 which, b2-b3 n, rest parent/kinds)
+    return untraced(_suite_b_impl, bits_index(b0, b1, b2, b3, b4, b5, b6, b7, b8, b9, b10, b11, b12, b13, b14, b15, b16, b17, b18))
 
 
-def _suite_b_impl(which, n, idx):
-    d = decode_index(idx, [N_PARENT] + [N_STMT] * n)
+def _suite_b_impl(idx):
+    which = idx & 3
+    n = (idx >> 2) & 3
+    d = decode_index(idx >> 4, [N_PARENT] + [N_STMT] * n)
     if d is None:
         return True
     pk = d[0]
